@@ -5,7 +5,7 @@ import Octo.Lemmas.SqlPrint
 Needed to discharge the fuel of `parseStmt` (which is the length of its input).  No well-formedness is needed here.
 -/
 set_option linter.unusedSimpArgs false
-namespace Octo.Sql
+namespace Octo.SqlSyn
 open Gen
 
 attribute [local simp] Fmt.run runSteps runPieces evalConds lookup ListFmt.run
@@ -250,4 +250,4 @@ theorem depth_le_len : ∀ n,
 
 theorem depthS_le_len (s : Sel) : depthS s ≤ (printS s).length := (depth_le_len (sizeS s)).2.2 s (Nat.le_refl _)
 
-end Octo.Sql
+end Octo.SqlSyn
